@@ -185,16 +185,60 @@ struct Job {
     spec: Option<String>,
 }
 
-fn cmp_program(a: &Opd, b: &Opd, form: &str) -> String {
-    let (x, y, pre) = match form {
-        "var" => ("a".to_string(), "b".to_string(), format!("let a = {}\nlet b = {}\n", a.expr, b.expr)),
-        "imm" => ("a".to_string(), b.expr.clone(), format!("let a = {}\n", a.expr)),
-        _ => (a.expr.clone(), b.expr.clone(), String::new()),
+const CMP_DESTS: [&str; 10] = ["print", "let", "assign", "if", "arg", "fn-print", "fn-let", "fn-assign", "fn-if", "fn-ret"];
+
+/// the six comparisons of (a, b) in operand shape `form` (var/var, var/literal = *Imm, literal/literal) with the
+/// RESULT consumed as `dest` says: printed directly, stored into a new local, assigned to an existing variable,
+/// used as an `if` condition, passed as a call argument — at top level, and the same inside a function (locals
+/// are frame offsets there), plus returned from a function.  The optimizer picks a different instruction
+/// variant per (operand shape, destination).
+fn cmp_program(a: &Opd, b: &Opd, form: &str, dest: &str) -> String {
+    let in_fn = dest.starts_with("fn-");
+    let d = dest.strip_prefix("fn-").unwrap_or(dest);
+    // operand expressions as seen where the comparison is written
+    let (x, y) = match form {
+        "var" => ("a".to_string(), "b".to_string()),
+        "imm" => ("a".to_string(), b.expr.clone()),
+        _ => (a.expr.clone(), b.expr.clone()),
     };
-    format!(
-        "{}{pre}println({x} < {y})\nprintln({x} <= {y})\nprintln({x} > {y})\nprintln({x} >= {y})\nprintln({x} == {y})\nprintln({x} != {y})\n",
-        prologue()
-    )
+    let ops = ["<", "<=", ">", ">=", "==", "!="];
+    let mut out = prologue();
+    out.push_str("fn idb(v: bool) -> bool {\n  v\n}\n");
+    let use_result = |i: usize, e: &str, ind: &str| -> String {
+        match d {
+            "print" => format!("{ind}println({e})\n"),
+            "let" => format!("{ind}let r{i} = {e}\n{ind}println(r{i})\n"),
+            "assign" => format!("{ind}var r{i} = false\n{ind}r{i} = {e}\n{ind}println(r{i})\n"),
+            "if" => format!("{ind}if {e} {{\n{ind}  println(true)\n{ind}}} else {{\n{ind}  println(false)\n{ind}}}\n"),
+            _ => format!("{ind}println(idb({e}))\n"),
+        }
+    };
+    let (params, args) = match form {
+        "var" => ("a: float, b: float".to_string(), format!("{}, {}", a.expr, b.expr)),
+        "imm" => ("a: float".to_string(), a.expr.clone()),
+        _ => (String::new(), String::new()),
+    };
+    if !in_fn {
+        match form {
+            "var" => out.push_str(&format!("let a = {}\nlet b = {}\n", a.expr, b.expr)),
+            "imm" => out.push_str(&format!("let a = {}\n", a.expr)),
+            _ => {}
+        }
+        for (i, op) in ops.iter().enumerate() {
+            out.push_str(&use_result(i, &format!("{x} {op} {y}"), ""));
+        }
+    } else if d == "ret" {
+        for (i, op) in ops.iter().enumerate() {
+            out.push_str(&format!("fn c{i}({params}) -> bool {{\n  {x} {op} {y}\n}}\nprintln(c{i}({args}))\n"));
+        }
+    } else {
+        out.push_str(&format!("fn go({params}) {{\n"));
+        for (i, op) in ops.iter().enumerate() {
+            out.push_str(&use_result(i, &format!("{x} {op} {y}"), "  "));
+        }
+        out.push_str(&format!("}}\ngo({args})\n"));
+    }
+    out
 }
 
 fn render_cmp(r: &RunResult) -> String {
@@ -286,26 +330,32 @@ fn main() {
         let mut forms_here: Vec<&'static str> = vec!["var"];
         if ob.literal { forms_here.push("imm"); }
         if oa.literal && ob.literal { forms_here.push("lit"); }
+        // destinations: one seeded destination per (pair, shape); every destination for equal operands
+        // (incl. -0.0/+0.0 and the NaN pair) and for a seeded tenth of the others
+        let all_dests = a == b || (a ^ b) == SIGN || ctx.rng.chance(1, if quick { 40 } else { 3 });
         for form in forms_here {
+        let dests: Vec<&'static str> = if all_dests { CMP_DESTS.to_vec() } else if quick { vec![*ctx.rng.pick(&CMP_DESTS)] } else { vec!["print", *ctx.rng.pick(&CMP_DESTS[1..])] };
+        for dest in dests {
         let lt = total_lt(a, b);
         let gt = total_lt(b, a);
         let eq = a == b;
         let bit = |x: bool| if x { '1' } else { '0' };
         let spec = format!("lt={} le={} gt={} ge={} eq={} ne={}", bit(lt), bit(lt || eq), bit(gt), bit(gt || eq), bit(eq), bit(!eq));
         jobs.push(Job {
-            req: format!("f64 cmp {} {} #{form}", hex64(a), hex64(b)),
-            src: cmp_program(&oa, &ob, form),
+            req: format!("f64 cmp {} {} #{form}/{dest}", hex64(a), hex64(b)),
+            src: cmp_program(&oa, &ob, form, dest),
             kind: "cmp",
-            form,
-            what: format!("{} ? {} ({} ? {})", oa.expr, ob.expr, hex64(a), hex64(b)),
+            form: Box::leak(format!("{form}/{dest}").into_boxed_str()),
+            what: format!("{} ? {} ({} ? {}) [{form}, result -> {dest}]", oa.expr, ob.expr, hex64(a), hex64(b)),
             spec: Some(spec),
         });
+        }
         }
     }
 
     // ---------------------------------------------------------------- arithmetic, all operand forms
     let ops = [("add", "+"), ("sub", "-"), ("mul", "*"), ("div", "/"), ("pow", "^")];
-    let n_arith = if quick { 420 } else { 12000 };
+    let n_arith = if quick { 700 } else { 12000 };
     for i in 0..n_arith {
         let (name, sym) = ops[i % ops.len()];
         let a = if ctx.rng.chance(1, 2) { *ctx.rng.pick(&set) } else { rand_bits(&mut ctx.rng) };
@@ -326,20 +376,37 @@ fn main() {
             _ => "var",
         };
         let c = host_arith(name, a, b);
-        let src = match form {
-            "var" => format!("{}let a = {}\nlet b = {}\nlet r = a {sym} b\nprintln(r)\nprintln(r < 0.0)\n", prologue(), oa.expr, ob.expr),
-            "imm" => format!("{}let a = {}\nlet r = a {sym} {}\nprintln(r)\nprintln(r < 0.0)\n", prologue(), oa.expr, ob.expr),
-            "lit" => format!("let r = {} {sym} {}\nprintln(r)\nprintln(r < 0.0)\n", oa.expr, ob.expr),
-            _ => format!("{}var r = {}\nlet b = {}\nr {sym}= b\nprintln(r)\nprintln(r < 0.0)\n", prologue(), oa.expr, ob.expr),
+        // where the result goes: a new local (default), printed directly, an existing variable, a call argument,
+        // a function's return value, a local inside a function
+        let dest: &'static str = if form == "cmpd" { "cmpd" } else { *ctx.rng.pick(&["let", "let", "print", "assign", "arg", "fn-ret", "fn-let", "fn-assign"]) };
+        let src = if form == "cmpd" {
+            format!("{}var r = {}\nlet b = {}\nr {sym}= b\nprintln(r)\nprintln(r < 0.0)\n", prologue(), oa.expr, ob.expr)
+        } else {
+            let (x, y, pre, params, args) = match form {
+                "var" => ("a".to_string(), "b".to_string(), format!("let a = {}\nlet b = {}\n", oa.expr, ob.expr), "a: float, b: float".to_string(), format!("{}, {}", oa.expr, ob.expr)),
+                "imm" => ("a".to_string(), ob.expr.clone(), format!("let a = {}\n", oa.expr), "a: float".to_string(), oa.expr.clone()),
+                _ => (oa.expr.clone(), ob.expr.clone(), String::new(), String::new(), String::new()),
+            };
+            let e = format!("{x} {sym} {y}");
+            let tail = "println(r)\nprintln(r < 0.0)\n";
+            match dest {
+                "let" => format!("{}{pre}let r = {e}\n{tail}", prologue()),
+                "print" => format!("{}{pre}println({e})\nprintln(({e}) < 0.0)\n", prologue()),
+                "assign" => format!("{}{pre}var r = 0.0\nr = {e}\n{tail}", prologue()),
+                "arg" => format!("{}fn idf(v: float) -> float {{\n  v\n}}\n{pre}let r = idf({e})\n{tail}", prologue()),
+                "fn-ret" => format!("{}fn g({params}) -> float {{\n  {e}\n}}\nlet r = g({args})\n{tail}", prologue()),
+                "fn-let" => format!("{}fn g({params}) -> float {{\n  let q = {e}\n  q\n}}\nlet r = g({args})\n{tail}", prologue()),
+                _ => format!("{}fn g({params}) -> float {{\n  var q = 0.0\n  q = {e}\n  q\n}}\nlet r = g({args})\n{tail}", prologue()),
+            }
         };
         let zero_div = name == "div" && (b & !SIGN) == 0;
         let spec = if zero_div { "err divzero".to_string() } else { format!("ok {}", render_bits(c)) };
         jobs.push(Job {
-            req: format!("f64 arith {} {name} {} {} {} #{form}", if form == "lit" { "lit" } else { "var" }, hex64(a), hex64(b), hex64(c)),
+            req: format!("f64 arith {} {name} {} {} {} #{form}/{dest}", if form == "lit" { "lit" } else { "var" }, hex64(a), hex64(b), hex64(c)),
             src,
             kind: "arith",
-            form,
-            what: format!("{} {sym} {} ({} {name} {})", oa.expr, ob.expr, hex64(a), hex64(b)),
+            form: Box::leak(format!("{form}/{dest}").into_boxed_str()),
+            what: format!("{} {sym} {} ({} {name} {}) [{form}, result -> {dest}]", oa.expr, ob.expr, hex64(a), hex64(b)),
             spec: Some(spec),
         });
     }
